@@ -130,6 +130,7 @@ type FnVC struct {
 	allocPos map[token.Pos]*ssa.Alloc
 	safetyAssumed int
 	behavClause bool
+	callOrd  map[*ssa.CallCommon]int
 	symHeaps map[string]bool // non-nil while the body of a recursive spec function is translated
 	localSorts map[string]string
 	localTypes map[string]types.Type
